@@ -121,7 +121,8 @@ def run_harness(exe, segments, shards=None, timeout=20, cwd=None):
                 finished = any(ev.get("e") == "done" for ev in o["events"])
                 if finished:
                     for s in seglist:
-                        results[s] = dict(events=per[s], status="ok", san="")
+                        # reports of a sanitizer that does not stop the process (TSan) belong to the whole shard
+                        results[s] = dict(events=per[s], status="ok", san="", shard_san=o["san"])
                 else:
                     # find the segment being executed when the process died
                     term = [ev for ev in o["events"] if ev.get("e") in ("aborted", "timeout")]
